@@ -141,13 +141,16 @@ example : granted { principal := "p", rules := [{ actions := ["get"], secrets :=
 
 /-! ### the monitor clauses are the specification's own behaviour -/
 
-/-- The two C01 clauses the driver evaluates on the real code's answers - an ungranted call is
-refused with access-denied and changes nothing; whatever is disclosed or changed was granted -
+/-- Three C01 clauses the driver evaluates on the real code's answers - an ungranted call is
+refused with access-denied and changes nothing; whatever is disclosed or changed was granted;
+a listing shows exactly the names the caller may see -
 hold of the specification's own step, for every state, caller, operation and oracle choice:
 they demand nothing the model does not do. -/
 theorem monitors_sound (kv : KV) (c : Caller) (op : Op) (aok sok : Bool) :
     c01_denied_noeffect (MonSound.obsOf kv c op aok sok) = true ∧
-    c01_effect_only_if_granted (MonSound.obsOf kv c op aok sok) = true :=
-  ⟨MonSound.c01_denied_noeffect_sound kv c op aok sok, MonSound.c01_effect_only_if_granted_sound kv c op aok sok⟩
+    c01_effect_only_if_granted (MonSound.obsOf kv c op aok sok) = true ∧
+    c01_list_exact (MonSound.obsOf kv c op aok sok) = true :=
+  ⟨MonSound.c01_denied_noeffect_sound kv c op aok sok, MonSound.c01_effect_only_if_granted_sound kv c op aok sok,
+   MonSound.c01_list_exact_sound kv c op aok sok⟩
 
 end Setec.C01
